@@ -22,3 +22,28 @@ impl<'a> PeekChars<'a> {
             old(self).view().len() > 0 ==> r == Some(&old(self).view()[0]),
     { self.it.peek() }
 }
+
+#[verifier::external_body]
+pub struct PeekCharIndices<'a> { it: std::iter::Peekable<std::str::CharIndices<'a>> }
+impl<'a> PeekCharIndices<'a> {
+    /// the (byte index, character) pairs not yet consumed
+    pub uninterp spec fn view(&self) -> Seq<(usize, char)>;
+    pub open spec fn chars(&self) -> Seq<char> { Seq::new(self.view().len(), |i: int| self.view()[i].1) }
+    #[verifier::external_body]
+    pub fn new(s: &'a str) -> (r: Self)
+        ensures r.chars() == s@,
+    { PeekCharIndices { it: s.char_indices().peekable() } }
+    #[verifier::external_body]
+    pub fn next(&mut self) -> (r: Option<(usize, char)>)
+        ensures
+            old(self).view().len() == 0 ==> r is None && final(self).view() == old(self).view(),
+            old(self).view().len() > 0 ==> r == Some(old(self).view()[0]) && final(self).view() == old(self).view().skip(1),
+    { self.it.next() }
+    #[verifier::external_body]
+    pub fn peek(&mut self) -> (r: Option<&(usize, char)>)
+        ensures
+            final(self).view() == old(self).view(),
+            old(self).view().len() == 0 ==> r is None,
+            old(self).view().len() > 0 ==> r == Some(&old(self).view()[0]),
+    { self.it.peek() }
+}
